@@ -116,9 +116,53 @@ def run(chk):
                 rk_of = rk_of[2][0]
             return sel[False] == ("const", 0) and isinstance(rk_of, tuple) and len(rk_of) == 3 and rk_of[0] == "field" and rk_of[2] == "rk" and flow.is_payload_of(rk_of[1], is_opts)
 
+        def supports2(rows):
+            """the same statement as a truth table over {options reported, their rk}: every row's conditions are presence tests
+            of the options or tests of their `rk`, its value a constant or that `rk`; for each of the three cases (absent;
+            present with rk false / true) the rows that apply agree on `present ∧ rk`"""
+            is_rk = lambda x: isinstance(x, tuple) and len(x) == 3 and x[0] == "field" and x[2] == "rk" and flow.is_payload_of(x[1], is_opts)
+            table = []
+            for r in rows:
+                cs = []
+                for t, l, f, w in r.conds:
+                    if flow.asserts_ok(t, l, is_opts):
+                        cs.append(("P", True))
+                    elif flow.asserts_fail(t, l, is_opts):
+                        cs.append(("P", False))
+                    else:
+                        a_, pol = flow.bool_atom(t, l)
+                        a_ = N.norm(a_) if a_ is not None else None
+                        while isinstance(a_, tuple) and len(a_) == 4 and a_[0] == "call" and a_[2] and (names.is_(a_[1], "Deref::deref") or names.is_(a_[1], "Clone::clone")):
+                            a_ = a_[2][0]
+                        if pol is None or not is_rk(a_):
+                            return False
+                        cs.append(("R", pol))
+                v = N.norm(r.value)
+                while isinstance(v, tuple) and len(v) == 4 and v[0] == "call" and v[2] and (names.is_(v[1], "Deref::deref") or names.is_(v[1], "Clone::clone")):
+                    v = v[2][0]
+                if v in (("const", 0), ("const", 1)):
+                    val = bool(v[1])
+                elif is_rk(v):
+                    val = "R"
+                else:
+                    return False
+                table.append((cs, val))
+            for P_, R_ in ((False, False), (True, False), (True, True)):
+                env = {"P": P_, "R": R_}
+                hit = [val for cs, val in table if all(env[k] == pol for k, pol in cs if not (k == "R" and not P_))
+                       and not (not P_ and any(k == "R" for k, pol in cs) and not any(k == "P" for k, pol in cs))]
+                if not hit:
+                    return False
+                for val in hit:
+                    if val == "R" and not P_:
+                        return False
+                    if (R_ if val == "R" else val) != (P_ and R_):
+                        return False
+            return True
+
         def run_input(crit):
             rows = S.evaluate(mr, {P_CRIT: crit})
-            if supports(rows):
+            if supports(rows) or supports2(rows):
                 return "supports"
             rows = [r for r in rows if not r.conds]
             vals = {classify(r.value) for r in rows}
@@ -241,8 +285,10 @@ def run(chk):
     if chk.require("R6 credProps", "R6|registration_extension_outputs", reo, CLIENT, "registration_extension_outputs not found"):
         chk.touched(reo)
         outs = normal.rows(S, reo, N, expand=False)
-        ro_reo = param_roles(reo, req="AuthenticationExtensionsClientInputs", info="StoreInfo", rk="bool")
+        ro_reo = param_roles(reo, req="AuthenticationExtensionsClientInputs", info="StoreInfo", disc="DiscoverabilitySupport", rk="bool")
         P_REQ6, P_INFO6, P_RK6 = ("param", ro_reo["req"] or 2), ("param", ro_reo["info"] or 3), ("param", ro_reo["rk"] or 4)
+        # the store's capability: the `discoverability` member of the store info, or handed over by itself
+        DISC6 = ("param", ro_reo["disc"]) if ro_reo["info"] is None and ro_reo["disc"] is not None else ("field", P_INFO6, "discoverability")
         present, absent = [], []
         for o in outs:
             cp = dict(o.value[3]).get("cred_props") if o.value[0] == "agg" else None
@@ -274,7 +320,7 @@ def run(chk):
             inner = dict(cp[3]).get("0")
             disc = dict(inner[3]).get("discoverable") if inner and inner[0] == "agg" else None
             v = dict(disc[3]).get("0") if disc and disc[0] == "agg" and disc[2] == "Some" else None
-            vok = v is not None and is_call(v, "DiscoverabilitySupport::is_passkey_discoverable") and v[2][0] == ("field", P_INFO6, "discoverability") and v[2][1] == P_RK6
+            vok = v is not None and is_call(v, "DiscoverabilitySupport::is_passkey_discoverable") and v[2][0] == DISC6 and v[2][1] == P_RK6
             ok = ok and member is not None and vok
             clo_ok = clo_ok and member is not None and member[0] == "field" and member[2] == "cred_props" and has(member, lambda x: x == P_REQ6)
             w = "credProps = %s under %s" % (flow.term_str(cp)[:160], [c[-70:] for c in o.cond_strs()])
@@ -290,9 +336,9 @@ def run(chk):
         c2 = names.calls_to(reg, "Authenticator::make_credential")
         if chk.require("R6 credProps", "R6|register|sites", len(c1) == 1 and len(c2) == 1, where(reg), "call sites not found"):
             a = c1[0][1]["args"]
-            ro6 = param_roles(reo, info="StoreInfo", rk="bool") if reo is not None else {"info": 3, "rk": 4}
+            ro6 = param_roles(reo, info="StoreInfo", disc="DiscoverabilitySupport", rk="bool") if reo is not None else {"info": 3, "rk": 4, "disc": None}
             rk_arg = flow.simplify_term(T.operand(a[(ro6["rk"] or 4) - 1], c1[0][0], "t"))
-            si_arg = flow.simplify_term(T.operand(a[(ro6["info"] or 3) - 1], c1[0][0], "t"))
+            si_arg = flow.simplify_term(T.operand(a[(ro6["info"] or ro6["disc"] or 3) - 1], c1[0][0], "t"))
             req = flow.simplify_term(T.operand(c2[0][1]["args"][1], c2[0][0], "t"))
             opts = dict(req[3]).get("options") if req[0] == "agg" else None
             rk_sent = dict(opts[3]).get("rk") if opts and opts[0] == "agg" else None
